@@ -753,6 +753,57 @@ func main() {
 			return hx(sb)
 		}))
 	}
+	// ---- 7b. the text form of Dec: String() and NewDecFromStr against the model
+	for i := 0; i < *n/8; i++ {
+		d := randDec(r)
+		if r.Chance(1, 4) { // around the eighteen-digit boundary
+			d = sdk.Dec{Int: new(big.Int).Add(new(big.Int).Exp(big.NewInt(10), big.NewInt(int64(16+r.Intn(5))), nil), big.NewInt(int64(r.Intn(3)-1)))}
+			if r.Bool() {
+				d.Int.Neg(d.Int)
+			}
+		}
+		emit("DS "+d.Int.String(), guard(func() string { return hx([]byte(d.String())) }))
+		str := d.String()
+		switch r.Intn(6) {
+		case 0: // fewer decimals
+			str = strings.TrimRight(str, "0")
+			if strings.HasSuffix(str, ".") {
+				str += "0"
+			}
+		case 1: // no fraction at all
+			str = strings.SplitN(str, ".", 2)[0]
+		case 2: // leading zeros
+			if strings.HasPrefix(str, "-") {
+				str = "-00" + str[1:]
+			} else {
+				str = "00" + str
+			}
+		case 3: // malformed (no sign characters: what big.Int.SetString does with an inner sign is not modelled)
+			alphabet := "0123456789..xe "
+			bs := []byte(str)
+			switch r.Intn(4) {
+			case 0:
+				if len(bs) > 0 {
+					bs = bs[:r.Intn(len(bs))]
+				}
+			case 1:
+				j := r.Intn(len(bs) + 1)
+				bs = append(bs[:j], append([]byte{alphabet[r.Intn(len(alphabet))]}, bs[j:]...)...)
+			case 2:
+				bs = append(bs, []byte("0000000000000000000")[:r.Intn(19)]...)
+			default:
+				bs = []byte(strings.Replace(string(bs), ".", "", 1))
+			}
+			str = string(bs)
+		}
+		emit("DP "+hx([]byte(str)), guard(func() string {
+			v, err := sdk.NewDecFromStr(str)
+			if err != nil {
+				return "error"
+			}
+			return v.Int.String()
+		}))
+	}
 	// ---- 8. strings JSON cannot carry (invalid UTF-8): different content must still give different sign bytes
 	for i := 0; i < 40; i++ {
 		tx := randTx(r)
